@@ -211,6 +211,10 @@ class Sample:
                     self.reads.append((read.query_sequence, read.query_name, r))
                 if r and debug:
                     self._dump_reads.append(r)
+            if self._indel_sites_eqs:
+                # counts taken from the equivalence table are [spanning reads, carrying reads]
+                for po, (off, on) in self._indel_sites.items():
+                    self._indel_sites[po] = [off - on, on]
         return norm, muts
 
     def _load_vcf(self, vcf_path: str, sample_idx: int = 0):
